@@ -74,12 +74,9 @@ func ruleNoDiscardedPull(c *Ctx, r *R, rels ...string) {
 						}
 						return 0, false
 					}
-					pf.Edge = func(f *ssa.Function, blk *ssa.BasicBlock, idx int, q int) (StateSet, bool) {
-						iff, ok := blk.Instrs[len(blk.Instrs)-1].(*ssa.If)
-						if !ok {
-							return 0, false
-						}
-						g := guard{cond: iff.Cond, val: idx == 0}
+					pf.Edge = func(f *ssa.Function, g guard, q int) (StateSet, bool) {
+		blk := g.blk
+		_ = blk
 						if isSel {
 							// entering the arm that received the item
 							if cf, ok := g.asCmp(); ok && cf.op == token.EQL && isConstInt(cf.y, int64(selArm)) {
@@ -335,12 +332,10 @@ func ruleRunsInnerSticky(c *Ctx, r *R) {
 		}
 		return 0, false
 	}
-	pf.Edge = func(f *ssa.Function, b *ssa.BasicBlock, idx int, q int) (StateSet, bool) {
-		iff, ok := b.Instrs[len(b.Instrs)-1].(*ssa.If)
-		if !ok {
-			return 0, false
-		}
-		if cf, ok := (guard{cond: iff.Cond, val: idx == 0}).asCmp(); ok && strings.HasSuffix(path(cf.x), ".parent") && isNilConst(cf.y) {
+	pf.Edge = func(f *ssa.Function, g guard, q int) (StateSet, bool) {
+		b := g.blk
+		_ = b
+		if cf, ok := g.asCmp(); ok && strings.HasSuffix(path(cf.x), ".parent") && isNilConst(cf.y) {
 			if cf.op == token.EQL {
 				return ss(1), true
 			}
